@@ -113,6 +113,11 @@ class TypePrinter:
     ) -> str:
         if ty.args:
             args = ", ".join(self._visit(arg, True) for arg in ty.args)
+            # Python reads `Option[(int, bool)]` as `Option[int, bool]`. A tuple type
+            # that is the only argument needs a trailing comma to stay one argument
+            match ty.args:
+                case [TypeArg(ty=TupleType())]:
+                    args += ","
             return f"{ty.defn.name}[{args}]"
         return ty.defn.name
 
